@@ -24,7 +24,7 @@ Definition mstep (c f : Z) (m : mview) (o : op) : mview :=
         match m with Some (Some g) => Some (Some (remove_first i g)) | _ => m end
       else m
   | ODelete c' => if Z.eqb c c' then None else m
-  | OGet _ | OPush _ | OFront _ _ | ODirect _ _ => m
+  | OGet _ | OPush _ | OFront _ _ _ | ODirect _ _ => m
   end.
 
 Definition members (h : list op) (c f : Z) : mview := fold_left (mstep c f) h None.
@@ -66,8 +66,9 @@ Definition push_spec_b (h : list op) (c : Z) (b : obs) : bool :=
   end.
 
 (* Front-end delivery of a multi-id push: each listed live id once per listing, in order;
-   unknown ids skipped. *)
-Definition deliver_spec (live ids d : list Z) : Prop :=
-  d = filter (fun i => zmem i live) ids.
+   unknown ids skipped; a connection that is closed but not yet removed gets nothing and does
+   not affect the others. *)
+Definition deliver_spec (live closing ids d : list Z) : Prop :=
+  d = filter (fun i => zmem i live && negb (zmem i closing)) ids.
 
 Definition obs_at (h : list op) (o : op) : obs := snd (step (final h) o).
